@@ -41,6 +41,10 @@ def run_proc(argv, cwd, timeout=TIMEOUT, binary=None):
         ex = code if code >= 0 else "signal:%d" % (-code)
         return dict(exit=ex, stdout=r.stdout.decode("utf-8", "replace"), stderr=r.stderr.decode("utf-8", "replace"))
     except subprocess.TimeoutExpired as e:
+        # a hang is only declared after a second, much longer attempt: on a loaded machine a process that takes
+        # milliseconds can miss the first deadline without hanging
+        if timeout < 120:
+            return run_proc(argv, cwd, timeout=120, binary=binary)
         return dict(exit="timeout", stdout=(e.stdout or b"").decode("utf-8", "replace"),
                     stderr=(e.stderr or b"").decode("utf-8", "replace"))
 
